@@ -18,6 +18,7 @@ D = 'astrodendro/dendrogram.py'
 S = 'astrodendro/structure.py'
 F = 'astrodendro/io/fits.py'
 H = 'astrodendro/io/hdf5.py'
+X = 'astrodendro/flux.py'
 
 # (label, file, old, new, expected: 'broken' | 'ok', a property whose obligations are looked at)
 CASES = [
@@ -59,7 +60,13 @@ CASES = [
     ('is_fits ignores mode', F, "if mode == 'r' and os.path.exists(filename):", 'if os.path.exists(filename):', 'broken', 'C09'),
     ('fits extension table', F, "('.fits', '.fits.gz', '.fit', '.fit.gz')", "('.fits', '.fits.gz', '.fit')", 'broken', 'C09'),
     ('hdf5 signature', H, "HDF5_SIGNATURE = b'\\x89HDF\\r\\n\\x1a\\n'", "HDF5_SIGNATURE = b'\\x89HDF\\r\\n\\x1a'", 'broken', 'C09'),
+    ('flux: wavelength presence check dropped', X, '        if wavelength is None:\n            raise ValueError("wavelength is needed to convert from {0} to Jy".format(input_quantities.unit))\n\n        # Find frequency\n        nu = si.c / wavelength',
+     '        nu = si.c / wavelength', 'broken', 'C13'),
+    ('flux: output unit check inverted', X, 'if not output_unit.is_equivalent(u.Jy):', 'if output_unit.is_equivalent(u.Jy):', 'broken', 'C13'),
+    ('flux: K branch before Jy/beam', X, 'elif input_quantities.unit.is_equivalent(u.Jy / u.beam):', 'elif input_quantities.unit.is_equivalent(u.K) and False:', 'broken', 'C13'),
     # ---- rewrites that keep the meaning
+    ('flux: De Morgan', X, 'if wavelength is not None and not wavelength.unit.is_equivalent(u.m):',
+     'if not (wavelength is None or wavelength.unit.is_equivalent(u.m)):', 'ok', 'C13'),
     ('min_delta child rearranged', P, '(_py(structure.height) - _py(structure.parent.height)) >= delta',
      '_py(structure.height) >= _py(structure.parent.height) + delta', 'ok', 'C07'),
     ('min_delta merge negated', P, 'return (_py(structure.vmax) - _py(value)) >= delta',
